@@ -35,3 +35,25 @@ Theorem C11_translated_short_sources : forall fuel s0 table src src_spare dst ds
          dst dst_spare = true.
 Proof. exact short_src_refines. Qed.
 Print Assumptions C11_translated_short_sources.
+
+(* the epilogue (label lastLiterals) of the translated method, for ANY state that reaches it: its outcome
+   follows exactly the branches of the model's finish_fast after the sequences were written up to di
+   ((0, nil) for an incompressible input, (0, ErrInvalidSourceShortBuffer) when token, length bytes or the
+   literals do not fit, else n = di + header + literals with dst = the old prefix, the encoded last literals, the
+   old tail — tail_post), never a panic, never out of fuel, nothing written beyond len(dst).  The statement
+   is about the definition the translator GENERATED for the code after the label. *)
+From LZ4V Require Import GenCompressBodyLoop.
+Theorem C11_translated_epilogue :
+  forall (src ssp : list Z) (dl dsp a : Z) (notc : bool),
+    0 <= a <= zlen src -> 0 <= dsp -> zlen src + dl + dsp < 2 ^ 61 ->
+  forall (fuel : nat) (s : state) (D : list Z) (di : Z),
+    frame src ssp dl dsp s -> m_dst s = D -> zlen D = dl + dsp ->
+    f_anchor s = a -> f_di s = di -> f_notc s = notc ->
+    0 <= di -> (Z.to_nat dl < fuel)%nat ->
+    ret_sat (lz4block_Compressor_CompressBlock_at_lastLiterals fuel s) (tail_post src D dl a di notc).
+Proof. exact tail_exec. Qed.
+Print Assumptions C11_translated_epilogue.
+(* what is left of the equality between the translated method and the model: sources longer than 14 bytes *)
+Theorem C11_translated_reduction : refines_long_stmt -> refines_stmt.
+Proof. exact refines_partial. Qed.
+Print Assumptions C11_translated_reduction.
